@@ -316,6 +316,7 @@ func runC07(c *Ctx) {
 		}
 	}
 	c07Ending(c)
+	c07Abandoned(c)
 	c07SubAckVectors(c)
 	if last != nil {
 		c.Sample(map[string]any{"wire": last.TraceStrings()})
@@ -455,6 +456,115 @@ func c07Ending(c *Ctx) {
 					if !returned {
 						vrt.Failf("c07/never-returned:"+v.kind+":"+end, "%s did not return after the connection ended (%s)", v.kind, end)
 					}
+				},
+				Observe: func() uint64 { return net.TraceHash() },
+			}
+			c.Explore(sc)
+		}
+	}
+}
+
+// c07Abandoned: part F.  A first request is given up by its caller (context cancelled after the
+// request was written, nothing answered), then a second request is issued and left pending, and
+// only now the peer answers the abandoned one (every acknowledgement kind with the abandoned
+// identifier).  The late acknowledgement belongs to nobody: the second call must stay pending until
+// its own acknowledgement arrives, and must then succeed.
+func c07Abandoned(c *Ctx) {
+	c.Bound("F", "an abandoned first request (context cancelled after the write, unanswered) x a second pending request, every pair of kinds; the peer then sends PUBACK/PUBREC/PUBCOMP/SUBACK/UNSUBACK with the abandoned identifier, after that the second request's own acknowledgements; P<=1")
+	kinds := c07Kinds()
+	issue := func(cli *mqtt.BaseClient, ctx vctx.Context, kind, tag string) error {
+		switch kind {
+		case "p1":
+			return cli.Publish(ctx, &mqtt.Message{Topic: "t", QoS: mqtt.QoS1, Payload: []byte(tag)})
+		case "p2":
+			return cli.Publish(ctx, &mqtt.Message{Topic: "t", QoS: mqtt.QoS2, Payload: []byte(tag)})
+		case "sub1":
+			_, err := cli.Subscribe(ctx, mqtt.Subscription{Topic: tag, QoS: mqtt.QoS1})
+			return err
+		case "sub2":
+			_, err := cli.Subscribe(ctx, mqtt.Subscription{Topic: tag, QoS: mqtt.QoS1}, mqtt.Subscription{Topic: tag + "/x", QoS: mqtt.QoS0})
+			return err
+		default:
+			return cli.Unsubscribe(ctx, tag)
+		}
+	}
+	for _, k1 := range kinds {
+		for _, k2 := range kinds {
+			k1, k2 := k1, k2
+			var net *env.Net
+			sc := &vrt.Scenario{
+				Name:  fmt.Sprintf("C07/F/abandoned-%s/then-%s", k1, k2),
+				Bound: vrt.Budget{P: 1},
+				Body: func() {
+					net = env.NewNet()
+					s := env.NewScript(net)
+					s.AutoConnAck = true
+					var reqs []*env.Packet
+					s.OnPacket = func(_ *env.Script, p *env.Packet) {
+						switch p.Type {
+						case env.PUBLISH, env.SUBSCRIBE, env.UNSUBSCRIBE:
+							reqs = append(reqs, p)
+						case env.PUBREL:
+							s.Conn.Send(env.EncAck(env.PUBCOMP, p.ID), "")
+						}
+					}
+					cli := &mqtt.BaseClient{Transport: s.Conn}
+					if _, err := cli.Connect(vctx.Background(), "c07"); err != nil {
+						vrt.Failf("harness", "connect: %v", err)
+						return
+					}
+					ctx1, cancel1 := vctx.WithCancel(vctx.Background())
+					done1, done2 := false, false
+					var err2 error
+					vrt.Go("first", func() { issue(cli, ctx1, k1, "first"); done1 = true })
+					vrt.Settle()
+					cancel1()
+					vrt.Settle()
+					if !done1 || len(reqs) != 1 {
+						vrt.Failf("harness", "the abandoned call did not return after cancellation (returned=%v, requests on the wire %d)", done1, len(reqs))
+						return
+					}
+					old := reqs[0].ID
+					vrt.Go("second", func() { err2 = issue(cli, vctx.Background(), k2, "second"); done2 = true })
+					vrt.Settle()
+					if len(reqs) != 2 || done2 {
+						vrt.Failf("c07/success-without-ack:"+k2+":before-any-answer", "second request (%s) returned %v before anything was answered (requests on the wire %d)", k2, err2, len(reqs))
+						return
+					}
+					if reqs[1].ID == old {
+						return // identifier reuse is C15's matter; the late answer would legitimately be the second request's
+					}
+					// the late answers for the abandoned identifier, every kind
+					for _, typ := range []byte{env.PUBACK, env.PUBREC, env.PUBCOMP, env.UNSUBACK} {
+						s.Conn.Send(env.EncAck(typ, old), "late answer to the abandoned request")
+					}
+					s.Conn.Send(env.EncSubAck(old, []byte{1}), "late answer to the abandoned request")
+					s.Conn.Send(env.EncSubAck(old, []byte{1, 0}), "late answer to the abandoned request")
+					vrt.Settle()
+					if done2 {
+						vrt.Failf("c07/completed-by-abandoned-requests-ack:"+k2, "second request (%s, id %d) returned %v on acknowledgements carrying the identifier %d of the abandoned %s\n wire:\n  %s", k2, reqs[1].ID, err2, old, k1, strings.Join(net.TraceStrings(), "\n  "))
+						return
+					}
+					// now its own
+					id := reqs[1].ID
+					switch k2 {
+					case "p1":
+						s.Conn.Send(env.EncAck(env.PUBACK, id), "")
+					case "p2":
+						s.Conn.Send(env.EncAck(env.PUBREC, id), "")
+					case "sub1":
+						s.Conn.Send(env.EncSubAck(id, []byte{1}), "")
+					case "sub2":
+						s.Conn.Send(env.EncSubAck(id, []byte{1, 0}), "")
+					default:
+						s.Conn.Send(env.EncAck(env.UNSUBACK, id), "")
+					}
+					vrt.Settle()
+					if !done2 || err2 != nil {
+						vrt.Failf("c07/own-ack-did-not-complete:"+k2, "second request (%s, id %d) after its own acknowledgement: returned=%v err=%v\n wire:\n  %s", k2, id, done2, err2, strings.Join(net.TraceStrings(), "\n  "))
+					}
+					cli.Close()
+					vrt.Quiesce()
 				},
 				Observe: func() uint64 { return net.TraceHash() },
 			}
